@@ -38,44 +38,61 @@ theorem bytesNeeded_take16 (buf : List UInt8) (h : 16 ≤ buf.length) :
   rw [h1]
   have h2 : ¬ buf.length < 16 := by omega
   simp only [h2, if_false, show ¬ (16 < 16) by omega]
-theorem cells_map_fst (f : Frame) : (cells f).map Prod.fst = f.bytes := by
-  unfold cells
-  cases h : f.bytes with
-  | nil => rfl
-  | cons b bs => simp [List.map_map, Function.comp_def]
+theorem cellsFrom_map_fst (fds : List Nat) (pos : Nat) : ∀ (bs : List UInt8) (i : Nat),
+    (cellsFrom fds pos i bs).map Prod.fst = bs
+  | [], _ => rfl
+  | b :: bs, i => by simp [cellsFrom, cellsFrom_map_fst fds pos bs (i + 1)]
 
-theorem cells_length (f : Frame) : (cells f).length = f.bytes.length := by
-  rw [← cells_map_fst f, List.length_map]
+theorem cells_map_fst (p : Frame → Nat) (f : Frame) : (cells p f).map Prod.fst = f.bytes :=
+  cellsFrom_map_fst _ _ _ _
+
+theorem cells_length (p : Frame → Nat) (f : Frame) : (cells p f).length = f.bytes.length := by
+  rw [← cells_map_fst p f, List.length_map]
 
 theorem flatMap_snd_nil (l : List (UInt8 × List Nat)) (h : ∀ x ∈ l, x.2 = []) :
     l.flatMap Prod.snd = [] := by
   rw [List.flatMap_eq_nil_iff]; exact h
 
-/-- descriptors ride on the first cell only -/
-theorem cells_fds_slice (f : Frame) (n m : Nat) :
-    (((cells f).drop n).take m).flatMap Prod.snd =
-      if n = 0 ∧ 0 < m ∧ f.bytes ≠ [] then f.fds else [] := by
-  unfold cells
-  cases hb : f.bytes with
-  | nil => simp
-  | cons b bs =>
-    have hno : ∀ x ∈ bs.map (fun x => ((x, []) : UInt8 × List Nat)), x.2 = [] := by
-      intro x hx
-      rw [List.mem_map] at hx
-      obtain ⟨y, _, rfl⟩ := hx
-      rfl
+/-- descriptors ride on one cell only: a slice carries them exactly if it contains that cell -/
+theorem cellsFrom_fds_slice (fds : List Nat) (pos : Nat) : ∀ (bs : List UInt8) (i n m : Nat),
+    (((cellsFrom fds pos i bs).drop n).take m).flatMap Prod.snd =
+      if i + n ≤ pos ∧ pos < i + n + m ∧ pos < i + bs.length then fds else []
+  | [], i, n, m => by
+    simp only [cellsFrom, List.drop_nil, List.take_nil, List.flatMap_nil, List.length_nil]
+    rw [if_neg]; omega
+  | b :: bs, i, n, m => by
     cases n with
+    | succ n =>
+      simp only [cellsFrom, List.drop_succ_cons]
+      rw [cellsFrom_fds_slice fds pos bs (i + 1) n m]
+      simp only [List.length_cons]
+      by_cases h : i + 1 + n ≤ pos ∧ pos < i + 1 + n + m ∧ pos < i + 1 + bs.length
+      · rw [if_pos h, if_pos]; omega
+      · rw [if_neg h, if_neg]; omega
     | zero =>
       cases m with
-      | zero => simp
+      | zero =>
+        simp only [List.take_zero, List.flatMap_nil]
+        rw [if_neg]; omega
       | succ m =>
-        simp only [List.drop_zero, List.take_succ_cons, List.flatMap_cons]
-        rw [flatMap_snd_nil _ (fun x hx => hno x (List.mem_of_mem_take hx))]
-        simp
-    | succ n =>
-      simp only [List.drop_succ_cons]
-      rw [flatMap_snd_nil _ (fun x hx => hno x (List.mem_of_mem_drop (List.mem_of_mem_take hx)))]
-      simp
+        simp only [cellsFrom, List.drop_zero, List.take_succ_cons, List.flatMap_cons]
+        have ih := cellsFrom_fds_slice fds pos bs (i + 1) 0 m
+        simp only [List.drop_zero] at ih
+        rw [ih]
+        simp only [List.length_cons]
+        by_cases hi : i = pos
+        · subst hi
+          rw [if_pos rfl, if_neg (by omega), List.append_nil, if_pos]; omega
+        · rw [if_neg hi, List.nil_append]
+          by_cases h : i + 1 + 0 ≤ pos ∧ pos < i + 1 + 0 + m ∧ pos < i + 1 + bs.length
+          · rw [if_pos h, if_pos]; omega
+          · rw [if_neg h, if_neg]; omega
+
+theorem cells_fds_slice (p : Frame → Nat) (f : Frame) (n m : Nat) :
+    (((cells p f).drop n).take m).flatMap Prod.snd =
+      if n ≤ p f ∧ p f < n + m ∧ p f < f.bytes.length then f.fds else [] := by
+  have := cellsFrom_fds_slice f.fds (p f) f.bytes 0 n m
+  simpa [cells] using this
 
 theorem recvmsg_eagain (w w' : World) (req k : Nat) (h : recvmsg w req k = (.eagain, w')) : w' = w := by
   simp only [recvmsg] at h
@@ -172,36 +189,43 @@ theorem refill_ne_closed (st : State) (w : World) (nd k : Nat) : (refill st w nd
 /-- the frame being assembled (a dummy empty frame when the peer has nothing more to say) -/
 def hd (todo : List Frame) : Frame := todo.headD ⟨[], []⟩
 
-def FramesOk (todo : List Frame) : Prop := ∀ f ∈ todo, FrameOk f
+variable {p : Frame → Nat}
+
+def FramesOk (p : Frame → Nat) (todo : List Frame) : Prop := ∀ f ∈ todo, FrameOk f ∧ p f < f.bytes.length
 
 /-- `todo` = the frames not yet handed out; the buffer holds a prefix of the first of them, the
     descriptors are those of that frame (once its first byte is in), the unread stream is the rest of
     it followed by the other frames, and the reservation stays within the frame and the growth step -/
-structure Inv (todo : List Frame) (st : State) (w : World) : Prop where
+structure Inv (p : Frame → Nat) (todo : List Frame) (st : State) (w : World) : Prop where
   le : st.buf.length ≤ (hd todo).bytes.length
   buf : st.buf = (hd todo).bytes.take st.buf.length
-  fds : st.fds = if st.buf.length = 0 then [] else (hd todo).fds
-  rest : w.rest = (cells (hd todo)).drop st.buf.length ++ stream todo.tail
+  fds : st.fds = if st.buf.length ≤ p (hd todo) then [] else (hd todo).fds
+  rest : w.rest = (cells p (hd todo)).drop st.buf.length ++ stream p todo.tail
   cap : st.cap ≤ max 16 (hd todo).bytes.length
   lenCap : st.buf.length ≤ st.cap
   grow : st.cap ≤ max 16 (st.buf.length + maxGrowth)
 
-theorem hd_ok {todo : List Frame} (hok : FramesOk todo) (hne : todo ≠ []) : FrameOk (hd todo) := by
+theorem hd_ok {todo : List Frame} (hok : FramesOk p todo) (hne : todo ≠ []) : FrameOk (hd todo) := by
   cases todo with
   | nil => exact absurd rfl hne
-  | cons f fs => exact hok f (by simp)
+  | cons f fs => exact (hok f (by simp)).1
+
+theorem hd_pos {todo : List Frame} (hok : FramesOk p todo) (hne : todo ≠ []) : p (hd todo) < (hd todo).bytes.length := by
+  cases todo with
+  | nil => exact absurd rfl hne
+  | cons f fs => exact (hok f (by simp)).2
 
 theorem hd_nil_len : (hd []).bytes.length = 0 := rfl
 
-theorem inv_init (frames : List Frame) : Inv frames State.empty (World.init frames) := by
+theorem inv_init (frames : List Frame) : Inv p frames State.empty (World.init p frames) := by
   refine ⟨by simp [State.empty], by simp [State.empty], by simp [State.empty], ?_, by simp [State.empty],
     by simp [State.empty], by simp [State.empty]⟩
   cases frames with
-  | nil => simp [World.init, State.empty, hd, stream, cells]
+  | nil => simp [World.init, State.empty, hd, stream, cells, cellsFrom]
   | cons f fs => simp [World.init, State.empty, hd, stream]
 
-theorem needed_of_inv {todo : List Frame} {st : State} {w : World} (hI : Inv todo st w)
-    (hok : FramesOk todo) :
+theorem needed_of_inv {todo : List Frame} {st : State} {w : World} (hI : Inv p todo st w)
+    (hok : FramesOk p todo) :
     bytesNeeded st.buf = .bytes (if st.buf.length < 16 then 16 else (hd todo).bytes.length) := by
   by_cases h : st.buf.length < 16
   · rw [if_pos h]; unfold bytesNeeded; rw [if_pos h]
@@ -215,8 +239,8 @@ theorem needed_of_inv {todo : List Frame} {st : State} {w : World} (hI : Inv tod
       rw [List.take_take]; congr 1; omega
     rw [this, h2]
 
-theorem check_of_inv {todo : List Frame} {st : State} {w : World} (hI : Inv todo st w)
-    (hok : FramesOk todo) :
+theorem check_of_inv {todo : List Frame} {st : State} {w : World} (hI : Inv p todo st w)
+    (hok : FramesOk p todo) :
     check st = if st.buf.length = (hd todo).bytes.length ∧ todo ≠ [] then .whole
       else .need (if st.buf.length < 16 then 16 else (hd todo).bytes.length) := by
   unfold check
@@ -234,10 +258,10 @@ theorem check_of_inv {todo : List Frame} {st : State} {w : World} (hI : Inv todo
 
 /-- one `refill_buffer` with a request bound that stays within the frame -/
 theorem refill_inv {todo : List Frame} {st st' : State} {w w' : World} {nd k : Nat} {r : Res}
-    (hI : Inv todo st w) (hok : FramesOk todo) (hnd : nd ≤ max 16 (hd todo).bytes.length)
+    (hI : Inv p todo st w) (hok : FramesOk p todo) (hnd : nd ≤ max 16 (hd todo).bytes.length)
     (h : refill st w nd k = (r, st', w')) :
     (r = .timedOut ∨ r = .readOk) ∧
-    Inv todo st' w' ∧
+    Inv p todo st' w' ∧
     (r = .timedOut → st'.buf = st.buf ∧ st'.fds = st.fds ∧ w' = w) ∧
     (r = .readOk → st.buf.length < st'.buf.length ∨ (nd ≤ st.buf.length ∧ st' = st ∧ w' = w)) := by
   by_cases hfull : nd ≤ st.buf.length
@@ -253,7 +277,7 @@ theorem refill_inv {todo : List Frame} {st st' : State} {w w' : World} {nd k : N
     have := hI.grow; simp only [reserve]; omega
   have hbuf' : (reserve st nd).buf = st.buf := rfl
   have hfds' : (reserve st nd).fds = st.fds := rfl
-  have hI1 : Inv todo (reserve st nd) w :=
+  have hI1 : Inv p todo (reserve st nd) w :=
     ⟨hI.le, hI.buf, hI.fds, hI.rest, hcap', hlen', hgrow'⟩
   rw [refill_read hfull] at h
   cases hr : recvmsg w ((reserve st nd).cap - st.buf.length) k with
@@ -272,7 +296,7 @@ theorem refill_inv {todo : List Frame} {st st' : State} {w w' : World} {nd k : N
       have hne : todo ≠ [] := by
         intro h0; subst h0
         have := hI.rest
-        simp [hd, cells, stream] at this
+        simp [hd, cells, cellsFrom, stream] at this
         rw [this] at hmrest; simp at hmrest; omega
       have hfo := hd_ok hok hne
       obtain ⟨h16, _, _, hfdl⟩ := hfo
@@ -286,7 +310,7 @@ theorem refill_inv {todo : List Frame} {st st' : State} {w w' : World} {nd k : N
       simp only [Bool.false_eq_true, if_false, Prod.mk.injEq] at h
       obtain ⟨rfl, rfl, rfl⟩ := h
       -- what was read is a slice of the current frame
-      have htake : w.rest.take m = ((cells (hd todo)).drop st.buf.length).take m := by
+      have htake : w.rest.take m = ((cells p (hd todo)).drop st.buf.length).take m := by
         rw [hI.rest, List.take_append_of_le_length]
         rw [List.length_drop, cells_length]; omega
       have hbytes : bs = ((hd todo).bytes.drop st.buf.length).take m := by
@@ -300,14 +324,16 @@ theorem refill_inv {todo : List Frame} {st st' : State} {w w' : World} {nd k : N
         · simp only [hlen]; exact hnm
         · simp only [hlen]; exact hnew
         · simp only [hlen]
-          rw [if_neg (by omega), hfds, htake, cells_fds_slice, hI.fds]
-          by_cases hz : st.buf.length = 0
-          · rw [if_pos hz, if_pos]
-            · simp only [List.nil_append]
+          have hpos := hd_pos hok hne
+          rw [hfds, htake, cells_fds_slice, hI.fds]
+          by_cases ha : st.buf.length + m ≤ p (hd todo)
+          · rw [if_pos ha, if_pos (by omega), if_neg (by omega)]; simp
+          · rw [if_neg ha]
+            by_cases hb : st.buf.length ≤ p (hd todo)
+            · rw [if_pos hb, if_pos ⟨hb, by omega, hpos⟩]
+              simp only [List.nil_append]
               exact List.take_of_length_le hfdl
-            · refine ⟨hz, hm0, ?_⟩
-              intro h0; rw [h0] at h16; simp at h16
-          · rw [if_neg hz, if_neg (by intro hh; exact hz hh.1)]; simp
+            · rw [if_neg hb, if_neg (by intro hh; exact hb hh.1)]; simp
         · simp only [hlen]
           rw [hw1, hI.rest, List.drop_append_of_le_length, List.drop_drop]
           rw [List.length_drop, cells_length]; omega
@@ -321,8 +347,8 @@ theorem check_buf_eq {st st' : State} (h : st'.buf = st.buf) : check st' = check
 theorem check_reserve (st : State) (nd : Nat) : check (reserve st nd) = check st :=
   check_buf_eq rfl
 
-theorem arrive_inv {todo : List Frame} {st : State} {w : World} (hI : Inv todo st w) (n : Nat) :
-    Inv todo st (w.arrive n) :=
+theorem arrive_inv {todo : List Frame} {st : State} {w : World} (hI : Inv p todo st w) (n : Nat) :
+    Inv p todo st (w.arrive n) :=
   ⟨hI.le, hI.buf, hI.fds, hI.rest, hI.cap, hI.lenCap, hI.grow⟩
 
 /-- nothing happens during the call: EAGAIN - unless the buffer is already full for this request -/
@@ -349,9 +375,9 @@ theorem check_need_lt {st : State} {nd : Nat} (h : check st = .need nd) : st.buf
     | tooLong => rw [hb] at h; simp at h
     | invalid => rw [hb] at h; simp at h
 
-theorem stream_hd_tail (l : List Frame) : stream l = cells (hd l) ++ stream l.tail := by
+theorem stream_hd_tail (l : List Frame) : stream p l = cells p (hd l) ++ stream p l.tail := by
   cases l with
-  | nil => simp [stream, hd, cells]
+  | nil => simp [stream, hd, cells, cellsFrom]
   | cons f fs => simp [stream, hd]
 
 theorem decodeMessage_header (b : List UInt8) (h : (decodeMessage b).isSome = true) :
@@ -371,10 +397,10 @@ theorem need_le (todo : List Frame) (st : State) :
     (if st.buf.length < 16 then 16 else (hd todo).bytes.length) ≤ max 16 (hd todo).bytes.length := by
   split <;> omega
 
-theorem readWhole_inv {todo : List Frame} (hok : FramesOk todo) :
-    ∀ (evs : List Ev) (st : State) (w : World), Inv todo st w →
+theorem readWhole_inv {todo : List Frame} (hok : FramesOk p todo) :
+    ∀ (evs : List Ev) (st : State) (w : World), Inv p todo st w →
     ∀ r st' w', readWhole st w evs = (r, st', w') →
-      Inv todo st' w' ∧ (r = .readOk → check st' = .whole) ∧ (r = .readOk ∨ r = .timedOut) ∧
+      Inv p todo st' w' ∧ (r = .readOk → check st' = .whole) ∧ (r = .readOk ∨ r = .timedOut) ∧
       (r = .timedOut → check st' ≠ .whole) := by
   intro evs
   induction evs with
@@ -432,8 +458,8 @@ theorem readWhole_inv {todo : List Frame} (hok : FramesOk todo) :
               exact ih st1 w1 hinv r st' w' h
 
 theorem getNext_inv {todo : List Frame} {st st' : State} {w w' : World} {evs : List Ev} {r : Res}
-    (hI : Inv todo st w) (hok : FramesOk todo) (h : getNext st w evs = (r, st', w')) :
-    ∃ todo', Inv todo' st' w' ∧ FramesOk todo' ∧ todo = msgs [r] ++ todo' ∧ r.good = true := by
+    (hI : Inv p todo st w) (hok : FramesOk p todo) (h : getNext st w evs = (r, st', w')) :
+    ∃ todo', Inv p todo' st' w' ∧ FramesOk p todo' ∧ todo = msgs [r] ++ todo' ∧ r.good = true := by
   simp only [getNext] at h
   cases hrw : readWhole st w evs with
   | mk r1 p =>
@@ -452,7 +478,7 @@ theorem getNext_inv {todo : List Frame} {st st' : State} {w w' : World} {evs : L
           | cons cur more =>
             have hcur : hd (cur :: more) = cur := rfl
             rw [hcur] at hlen
-            obtain ⟨h16, _, hdec, _⟩ := hok cur (by simp)
+            obtain ⟨⟨h16, _, hdec, _⟩, hpc⟩ := hok cur (by simp)
             have hbuf : st1.buf = cur.bytes := by
               have := hI1.buf
               rw [hcur, hlen, List.take_length] at this
@@ -526,11 +552,11 @@ theorem recvWith_ne_closed {nd : Nat} : ∀ (evs : List Ev) (st : State) (w : Wo
     | wouldBlock => simp only [recvWith]; exact refill_ne_closed _ _ _ _
     | deliver k => simp only [recvWith]; exact refill_ne_closed _ _ _ _
 
-theorem recvWith_inv {todo : List Frame} (hok : FramesOk todo) {nd : Nat}
+theorem recvWith_inv {todo : List Frame} (hok : FramesOk p todo) {nd : Nat}
     (hnd : nd ≤ max 16 (hd todo).bytes.length) :
-    ∀ (evs : List Ev) (st : State) (w : World), Inv todo st w →
+    ∀ (evs : List Ev) (st : State) (w : World), Inv p todo st w →
     ∀ r st' w', recvWith st w nd evs = (r, st', w') →
-      (r = .timedOut ∨ r = .readOk) ∧ Inv todo st' w' := by
+      (r = .timedOut ∨ r = .readOk) ∧ Inv p todo st' w' := by
   intro evs
   induction evs with
   | nil =>
@@ -554,16 +580,16 @@ theorem recvWith_inv {todo : List Frame} (hok : FramesOk todo) {nd : Nat}
       exact ⟨h1, h2⟩
 
 theorem readOnce_inv {todo : List Frame} {st st' : State} {w w' : World} {evs : List Ev} {r : Res}
-    (hI : Inv todo st w) (hok : FramesOk todo) (h : readOnce st w evs = (r, st', w')) :
-    (r = .timedOut ∨ r = .readOk) ∧ Inv todo st' w' := by
+    (hI : Inv p todo st w) (hok : FramesOk p todo) (h : readOnce st w evs = (r, st', w')) :
+    (r = .timedOut ∨ r = .readOk) ∧ Inv p todo st' w' := by
   simp only [readOnce, needed_of_inv hI hok] at h
   exact recvWith_inv hok (need_le todo st) evs st w hI r st' w' h
 
 /-- every call keeps the invariant and produces a good result: no call can fail - in particular none can
     report `ConnectionClosed` - on a stream of well-formed frames -/
 theorem step_inv {todo : List Frame} {st st' : State} {w w' : World} {c : Call} {evs : List Ev} {r : Res}
-    (hI : Inv todo st w) (hok : FramesOk todo) (h : step c st w evs = (r, st', w')) :
-    ∃ todo', Inv todo' st' w' ∧ FramesOk todo' ∧ todo = msgs [r] ++ todo' ∧ r.good = true := by
+    (hI : Inv p todo st w) (hok : FramesOk p todo) (h : step c st w evs = (r, st', w')) :
+    ∃ todo', Inv p todo' st' w' ∧ FramesOk p todo' ∧ todo = msgs [r] ++ todo' ∧ r.good = true := by
   cases c with
   | getNext => exact getNext_inv hI hok h
   | readOnce =>
